@@ -30,6 +30,19 @@ impl ForwardedTLV<'_> {
     }
 }
 
+#[cfg(all(statime_verif, feature = "std"))]
+impl ForwardedTLV<'_> {
+    /// (tlv type, value, sender identity) of this TLV (verification builds
+    /// only)
+    pub fn verif_parts(&self) -> (u16, std::vec::Vec<u8>, PortIdentity) {
+        (
+            self.tlv.tlv_type.to_primitive(),
+            self.tlv.value.to_vec(),
+            self.sender_identity,
+        )
+    }
+}
+
 /// Source of TLVs that need to be forwarded, provided to announce sender.
 pub trait ForwardedTLVProvider {
     /// Should provide the next available TLV, unless it is larger than max_size
